@@ -123,7 +123,7 @@ def run(chk):
     corpus = os.path.join(vlib.ROOT, "corpus", "C20", "cases.jsonl")
     _batch(chk, "%s corpus -in %s -out {out}" % (exe, corpus), model, "corpus", state, samples, dist, 1)
     if chk.tier == "quick":
-        plan = [(chk.seed, 450)]
+        plan = [(chk.seed, 600)]
     else:
         plan = [(chk.seed * 100 + k, 2000) for k in range(10)]
     for i, (seed, n) in enumerate(plan):
